@@ -22,13 +22,15 @@ class MatchResult:
         }
 
 class InwardRange:
-    __slots__ = ('start', 'end', 'delimiter', 'first_child')
+    __slots__ = ('start', 'end', 'delimiter', 'first_child', 'value')
 
     def __init__(self, start: int, end: int, delimiter: int):
         self.start = start
         self.end = end
         self.delimiter = delimiter
         self.first_child = None
+        self.value = None
+        "Value range, if current range is a property with known value"
 
 
 def match(source: str, pos: int) -> MatchResult:
@@ -138,6 +140,7 @@ def balanced_inward(source: str, pos: int) -> list:
             r.start = start
             r.end = end
             r.delimiter = delimiter
+            r.value = None
             return r
 
         return InwardRange(start, end, delimiter)
@@ -179,7 +182,7 @@ def balanced_inward(source: str, pos: int) -> list:
                 while r.first_child:
                     child = r.first_child
 
-                    inner = inner_range(source, child.delimiter + 1, child.end - 1)
+                    inner = child.value or inner_range(source, child.delimiter + 1, child.end - 1)
                     push(result, (child.start, child.end))
                     if inner:
                         push(result, inner)
@@ -214,6 +217,7 @@ def balanced_inward(source: str, pos: int) -> list:
                     # First child is an expected property name, update its range
                     # to include property value
                     parent.first_child.end = property_end(source, end, delimiter)
+                    parent.first_child.value = (start, end)
 
                 release_pending()
         else:
